@@ -156,7 +156,83 @@ func init() {
 					}
 				}
 			}
+			// cold-start executions: the concurrent run is the FIRST thing that happens in a fresh process, so
+			// lazily built tables and caches are still empty (check-then-act races on first use); the solo
+			// reference is computed afterwards in the same process.
+			coldInner := func(k int) func(c *engine.Ctx) {
+				return func(c *engine.Ctx) {
+					a := calls[c.In("f", len(calls))]
+					var cs []c19calls.Call
+					if k == 3 {
+						cs = []c19calls.Call{a, a, a}
+					} else {
+						b := a
+						if tier == "thorough" {
+							b = calls[c.In("g", len(calls))]
+						}
+						cs = []c19calls.Call{a, b}
+					}
+					names := make([]string, len(cs))
+					fns := make([]func() string, len(cs))
+					for i := range cs {
+						names[i], fns[i] = cs[i].Name, cs[i].Fn
+					}
+					ex, res := sched.Run(c, names, fns)
+					if ex.SchedPoints > 1 {
+						c.Nontrivial(strings.Join(names, "|"))
+					}
+					judge(c, ex, res, cs)
+				}
+			}
+			Inner["cold-pairs"] = coldInner(2)
+			Inner["cold-triples"] = coldInner(3)
+			coldOuter := func(name string) func(c *engine.Ctx) {
+				return func(c *engine.Ctx) {
+					self, _ := os.Executable()
+					pf := c.Prefix()
+					strs := make([]string, len(pf))
+					for i, v := range pf {
+						strs[i] = fmt.Sprint(v)
+					}
+					cmd := exec.Command(self, "-oneexec", name, "-tier", tier, "-choices", strings.Join(strs, ","))
+					cmd.Env = append(os.Environ(), "GOMAXPROCS=2")
+					out, err := cmd.Output()
+					var o engine.OneExec
+					if err != nil || json.Unmarshal(out, &o) != nil {
+						c.Count("cold_subprocess_failed")
+						c.Skip("cold-subprocess-failed")
+					}
+					// re-declare the choice points so that the explorer can continue the depth-first search
+					for i := range o.Arities {
+						got := c.Choose(engine.Kind(o.Kinds[i]), o.Labels[i], o.Arities[i])
+						if got != o.Choices[i] {
+							panic("engine: cold execution diverged from its prefix")
+						}
+					}
+					for k, v := range o.Counters {
+						c.CountN(k, v)
+					}
+					for _, n := range o.Nontrivial {
+						c.Nontrivial(n)
+					}
+					c.Observe("%s", o.Obs)
+					c.Outcome(o.Obs)
+					if o.Panic != "" {
+						c.Violation("C19:harness-panic-in-cold-execution", map[string]any{"panic": o.Panic})
+					}
+					for _, v := range o.Violations {
+						c.Violation(v.Sig, v.Detail)
+					}
+				}
+			}
+			coldDev := 2
 			return []engine.Phase{
+				{Name: "cold-triples", Stateful: true, ShardDepth: 1, Bounds: engine.Bounds{EnvDev: coldDev, InputDev: -1},
+					Rule: "L1 from a cold start: (f,f,f) for every representative call, every interleaving within the deviation bound executed as the first thing in a fresh process (lazily built state still empty); solo reference computed afterwards; non-trivial = distinct calls with more than one scheduling decision",
+					Body: coldOuter("cold-triples")},
+				{Name: "cold-pairs", Stateful: true, ShardDepth: 2, Bounds: engine.Bounds{EnvDev: coldPairDev(tier), InputDev: -1},
+					Rule: "L1 from a cold start: quick: (f,f) for every call with at most one deviation; thorough: all ordered pairs (f,g) with at most two deviations; each execution in a fresh process; non-trivial = distinct pairs with more than one scheduling decision",
+					Body: coldOuter("cold-pairs")},
 				{Name: "instrumentation-report", Serial: true, Bounds: engine.Bounds{InputDev: -1},
 					Rule: "the instrumenter's report for the current tree: packages, package-level variables, access sites, sync imports, unsupported constructs (one execution; unsupported constructs make the run non-exhaustive)",
 					Body: func(c *engine.Ctx) {
@@ -300,4 +376,34 @@ func trunc(s string, n int) string {
 		return s[:n] + "…"
 	}
 	return s
+}
+
+// Inner holds phase bodies that can be executed once in a fresh process (mc19 -oneexec).
+var Inner = map[string]func(*engine.Ctx){}
+
+func coldPairDev(tier string) int {
+	if tier == "thorough" {
+		return 2
+	}
+	return 1
+}
+
+// RunOneExec runs one execution of an inner body and prints its outcome as JSON.
+func RunOneExec(name, tier string, choices []int) int {
+	ck := engine.Lookup("C19")
+	if ck == nil {
+		return 2
+	}
+	ck.Phases(tier) // registers the inner bodies
+	body := Inner[name]
+	if body == nil {
+		return 2
+	}
+	o := engine.RunOne("C19", body, choices)
+	b, err := json.Marshal(o)
+	if err != nil {
+		return 2
+	}
+	os.Stdout.Write(b)
+	return 0
 }
